@@ -127,6 +127,23 @@ func openStorage(dir string, opt Options) (*storage, error) {
 		if err = s.log.Reset(s.snaps.index); err != nil {
 			return nil, err
 		}
+	} else if s.log.Contains(s.snaps.index) {
+		// same crash window, but the log reaches beyond the snapshot: if its
+		// entry at the snapshot index is not the one the snapshot ends with,
+		// the snapshot was installed over a conflicting log that had to go
+		data, err := s.log.Get(s.snaps.index)
+		if err != nil {
+			return nil, opError(err, "Log.Get(%d)", s.snaps.index)
+		}
+		e := &entry{}
+		if err := e.decode(bytes.NewReader(data)); err != nil {
+			return nil, opError(err, "Log.Get(%d).decode", s.snaps.index)
+		}
+		if e.term != s.snaps.term {
+			if err = s.log.Reset(s.snaps.index); err != nil {
+				return nil, err
+			}
+		}
 	}
 	if s.log.Count() > 0 {
 		data, err := s.log.Get(s.log.LastIndex())
